@@ -31,6 +31,7 @@ type c13reader struct {
 	once   sync.Once
 	pushed [][]byte // payloads pushed, by index
 	rejectCfg bool  // this connection answers the service's own SetReaderConfig with an error status
+	trailer   []byte // a whole frame sent in the SAME write as the greeting of the serving connection (a reader that has an event queued)
 }
 
 func (r *c13reader) write(b []byte) error {
@@ -48,7 +49,7 @@ func (r *c13reader) serve(conn net.Conn, hello []byte) {
 	r.mu.Lock()
 	r.conn = conn
 	r.mu.Unlock()
-	_ = r.write(append(c14header(1, 63, len(hello), 0), hello...))
+	_ = r.write(append(append(c14header(1, 63, len(hello), 0), hello...), r.trailer...))
 	hdr := make([]byte, 10)
 	for {
 		if _, err := io.ReadFull(conn, hdr); err != nil {
@@ -197,6 +198,10 @@ func c13round(t *testing.T, o *vout, rng *vrng, ndev, perDev, round int) {
 	go func() {
 		defer close(collectorDone)
 		for av := range async {
+			if round%2 == 1 {
+				// EdgeX is slower than the readers in every other round: readings queue up inside the service
+				time.Sleep(300 * time.Microsecond)
+			}
 			for _, cv := range av.CommandValues {
 				content := "unmarshalable"
 				if m, ok := cv.Value.(interface{ MarshalBinary() ([]byte, error) }); ok {
@@ -228,6 +233,14 @@ func c13round(t *testing.T, o *vout, rng *vrng, ndev, perDev, round int) {
 		// a reader event received from this device and is published like any other.
 		mode := (round + i) % 3
 		refusal := c13mustMarshal(llrp.NewConnectMessage(llrp.ConnExistsClientInitiated))
+		// every other reader has an event queued when the service connects: it arrives right behind the greeting, in the
+		// same segment — and is an event of this device like any other
+		var trailer []byte
+		if (round+i)%2 == 0 {
+			ev := c13event(rng, 0xF0000+uint32(round)<<8+uint32(i))
+			trailer = append(c14header(1, 63, len(ev), 77), ev...)
+			pushes = append(pushes, c13push{i, 63, ev})
+		}
 		go func() {
 			first := true
 			for {
@@ -244,6 +257,11 @@ func c13round(t *testing.T, o *vout, rng *vrng, ndev, perDev, round int) {
 				}
 				r.mu.Lock()
 				r.rejectCfg = first && mode == 2
+				if r.rejectCfg {
+					r.trailer = nil
+				} else {
+					r.trailer = trailer
+				}
 				r.mu.Unlock()
 				first = false
 				r.serve(c, hello)
